@@ -180,6 +180,22 @@ Definition lint_skeleton (has_ref read_ref parse_ref read parse : bool) : outcom
 Definition outcome_code (o : outcome) : Z :=
   match o with NoComparison => 0 | ErrorReport => 1 | Body => 2 | Escapes => 3 end%Z.
 
+(* ---- merge(): skips.sort(key=lambda s: s.span[0]) ------------------------------------ *)
+(* list.sort computes the keys and then compares them; with fewer than two
+   elements nothing is compared, otherwise every element takes part in at least
+   one comparison, and None compared with anything raises TypeError *)
+Definition sort_skips (keys : list (option nat)) : result unit :=
+  match keys with
+  | [] | [_] => Ok tt
+  | _ => if forallb (fun k => match k with Some _ => true | None => false end) keys
+         then Ok tt else Raise TypeError
+  end.
+
+(* the keys of the skips of a strings.xml comparison: one entry per error-level
+   check result (the entity is appended once per result) and one per junk *)
+Definition android_skip_keys (n_results n_junk : nat) : list (option nat) :=
+  repeat c05_android_entity_key n_results ++ repeat c05_android_junk_key n_junk.
+
 (* ---- specification side ---------------------------------------------------------- *)
 (* offsets of the occurrences of c, counted from p *)
 Fixpoint occurrences (c : N) (p : nat) (s : str) : list nat :=
